@@ -119,32 +119,25 @@ theorem run_riBody_orphan (x : Nat) (e : TokEntry) (g : Nat) (s : St)
       show (if c = x then none else s.cache c) = some false
       simp [h2, h3 h0])]
 
-theorem run_revokeInternal_orphan (f x : Nat) (e : TokEntry) (s : St)
+/-- the part of `revokeInternal(skipOrphan = false)` after the `tokensPendingDeletion` check -/
+theorem run_ri_tail_orphan (f x : Nat) (e : TokEntry) (s : St)
     (he : s.ids x = some e)
     (hm : e.marked = false)
-    (hp : s.pend (.salted x) = none)
     (hcache : x ≠ 0 → s.cache x = some false)
     (htl : s.tl x = none → s.cache x = none)
     (hpx : ∀ p, e.parent = some p → p ≠ x)
     (hg : s.next + 1 ≤ f + 1)
     (hl : ∀ c ∈ s.children x, (s.ids c).isSome ∧ c ≠ x ∧ (c ≠ 0 → s.cache c = some false)) :
-    run (revokeInternal (f+2) x false) s = (.ok (), orphanSt x e s) := by
-  unfold revokeInternal
-  simp only [bind_eq, pure_eq]
-  rw [run_bind, run_pendLOS, hp]
-  simp only [Bool.false_and, Bool.false_eq_true, if_false]
-  rw [run_bind, run_lookup f x true { s with pend := fun k => if k = PKey.salted x then some true else s.pend k }
-    (fun _ _ h0 => hcache h0)]
-  simp only [lkRes, he, Bool.not_true, Bool.and_false, Bool.false_eq_true, if_false]
+    run ((lookup (f+1) x true).bindE (riAfterLookup x false (orphanLoop (f+1)))) s = (.ok (), orphanSt x e s) := by
+  rw [run_bindE, run_lookup f x true s (fun _ _ h0 => hcache h0)]
+  simp only [lkRes, he, Bool.not_true, Bool.and_false, Bool.false_eq_true, if_false, riAfterLookup, bind_eq]
   rw [run_bind, run_riMark]
   simp only [hm, Bool.false_eq_true, if_false]
   rw [run_bindE]
-  have hchild0 : (St.putKey { s with pend := fun k => if k = PKey.salted x then some true else s.pend k }
-      (Key.id x) (Payload.tok { e with marked := true })).children x = s.children x :=
+  have hchild0 : (St.putKey s (Key.id x) (Payload.tok { e with marked := true })).children x = s.children x :=
     children_congr (s := s) rfl rfl x (fun _ => rfl)
   have hbody := run_riBody_orphan x e (f+1)
-    (St.putKey { s with pend := fun k => if k = PKey.salted x then some true else s.pend k }
-      (Key.id x) (Payload.tok { e with marked := true }))
+    (St.putKey s (Key.id x) (Payload.tok { e with marked := true }))
     (by simpa [St.putKey] using htl) hpx hg (by
       intro c hc
       rw [hchild0] at hc
@@ -155,10 +148,7 @@ theorem run_revokeInternal_orphan (f x : Nat) (e : TokEntry) (s : St)
   rw [hbody]
   simp only [run_riFinish_ok]
   congr 1
-  have hchild : (St.putKey { s with pend := fun k => if k = PKey.salted x then some true else s.pend k }
-      (Key.id x) (Payload.tok { e with marked := true })).children x = s.children x :=
-    children_congr (s := s) rfl rfl x (fun _ => rfl)
-  rw [hchild]
+  rw [hchild0]
   have hxch : x ∉ s.children x := fun h => (hl x h).2.1 rfl
   cases hpar : e.parent <;>
     apply St.ext' <;>
@@ -172,6 +162,39 @@ theorem run_revokeInternal_orphan (f x : Nat) (e : TokEntry) (s : St)
     | (funext a b; by_cases h1 : a = _ <;> by_cases h2 : b = x <;> simp [h1, h2])
     | (funext k; by_cases hk : k = .salted x <;> simp [hk])
 
+theorem run_revokeInternal_orphan (f x : Nat) (e : TokEntry) (s : St)
+    (he : s.ids x = some e)
+    (hm : e.marked = false)
+    (hp : s.pend (.salted x) ≠ some true)
+    (hcache : x ≠ 0 → s.cache x = some false)
+    (htl : s.tl x = none → s.cache x = none)
+    (hpx : ∀ p, e.parent = some p → p ≠ x)
+    (hg : s.next + 1 ≤ f + 1)
+    (hl : ∀ c ∈ s.children x, (s.ids c).isSome ∧ c ≠ x ∧ (c ≠ 0 → s.cache c = some false)) :
+    run (revokeInternal (f+2) x false) s = (.ok (), orphanSt x e s) := by
+  unfold revokeInternal
+  simp only [bind_eq, pure_eq]
+  rw [run_bind, run_pendLOS]
+  cases hpx' : s.pend (.salted x) with
+  | some b =>
+    cases b with
+    | true => exact absurd hpx' hp
+    | false =>
+      simp only [Bool.true_and, Bool.false_eq_true, if_false]
+      exact run_ri_tail_orphan f x e s he hm hcache htl hpx hg hl
+  | none =>
+    simp only [Bool.false_and, Bool.false_eq_true, if_false]
+    refine (run_ri_tail_orphan f x e { s with pend := fun k => if k = PKey.salted x then some true else s.pend k }
+      he hm hcache htl hpx hg (by
+        have : ({ s with pend := fun k => if k = PKey.salted x then some true else s.pend k } : St).children x
+            = s.children x := children_congr (s := s) rfl rfl x (fun _ => rfl)
+        rw [this]; exact hl)).trans ?_
+    congr 1
+    have hch : ({ s with pend := fun k => if k = PKey.salted x then some true else s.pend k } : St).children x
+        = s.children x := children_congr (s := s) rfl rfl x (fun _ => rfl)
+    apply St.ext' <;> simp only [orphanSt, orphanL, purge1, St.leasesOf, St.cubKeys, hch] <;> try rfl
+    funext k
+    by_cases hk : k = .salted x <;> simp [hk]
 
 theorem Inv.child_facts {s : St} (hI : Inv s) {t : Nat} (ht : (s.ids t).isSome) :
     ∀ c ∈ s.children t, (∃ ec, s.ids c = some ec ∧ ec.parent = some t) ∧ t < c := by
@@ -202,7 +225,7 @@ theorem run_revokeOrphan {s : St} (hI : Inv s) (g : Nat) (hg : s.next + 1 ≤ g 
       simp only
       have hts : (s.ids t).isSome := by simp [ht]
       have hok := hI.fi.tok t e ht
-      have hpend : s.pend (.salted t) = none := hI.pendNone _
+      have hpend : s.pend (.salted t) ≠ some true := hI.pendClean _
       rw [run_bindE, run_revokeInternal_orphan g t e s ht (hI.unmarked t e ht) hpend hok.cache hok.tlc
         (by
           intro p hp hpt
@@ -339,10 +362,10 @@ theorem inv_orphanSt {s : St} (hI : Inv s) {t : Nat} {e : TokEntry} (ht : s.ids 
           exact hcn (F2 c e' h hpe)
         exact hlive' p hpt hps
   · intro k
-    show (purge1 t e s).pend k = none
+    show (purge1 t e s).pend k ≠ some true
     simp only [purge1_pend]
     split
-    · rfl
-    · exact hI.pendNone k
+    · intro h; cases h
+    · exact hI.pendClean k
 
 end Obao.Revoke
